@@ -1,1 +1,135 @@
-//! (reference for blowfish: to be written)
+//! Blowfish (B. Schneier, "Description of a New Variable-Length Key, 64-Bit Block Cipher", FSE 1993) in the
+//! paper's own single-round form, and eksblowfish's ExpandKey (Provos & Mazieres, "A Future-Adaptable Password
+//! Scheme", USENIX 1999).  P and S are generated from the digits of pi (gen_blowfish_tables.py).
+//! Vectors: Schneier's published test vectors (vectors.txt).
+
+include!("blowfish_tables.rs");
+
+#[derive(Clone)]
+pub struct State {
+    pub p: [u32; 18],
+    pub s: [[u32; 256]; 4],
+}
+
+pub fn init_state() -> State { State { p: P, s: S } }
+
+/// F(xL) = ((S1[a] + S2[b] mod 2^32) XOR S3[c]) + S4[d] mod 2^32, a..d = the bytes of xL from the most significant
+pub fn f(st: &State, x: u32) -> u32 {
+    let a = st.s[0][(x >> 24) as usize];
+    let b = st.s[1][((x >> 16) & 0xff) as usize];
+    let c = st.s[2][((x >> 8) & 0xff) as usize];
+    let d = st.s[3][(x & 0xff) as usize];
+    (a.wrapping_add(b) ^ c).wrapping_add(d)
+}
+
+/// For i = 1 to 16: xL = xL XOR Pi; xR = F(xL) XOR xR; swap.  Undo the last swap; xR ^= P17; xL ^= P18.
+pub fn encrypt(st: &State, l: u32, r: u32) -> (u32, u32) {
+    let (mut xl, mut xr) = (l, r);
+    let mut i = 0;
+    while i < 16 {
+        xl ^= st.p[i];
+        xr ^= f(st, xl);
+        let t = xl; xl = xr; xr = t;
+        i += 1;
+    }
+    let t = xl; xl = xr; xr = t;
+    xr ^= st.p[16];
+    xl ^= st.p[17];
+    (xl, xr)
+}
+/// Decryption: the same with P1..P18 used in reverse order.
+pub fn decrypt(st: &State, l: u32, r: u32) -> (u32, u32) {
+    let (mut xl, mut xr) = (l, r);
+    let mut i = 0;
+    while i < 16 {
+        xl ^= st.p[17 - i];
+        xr ^= f(st, xl);
+        let t = xl; xl = xr; xr = t;
+        i += 1;
+    }
+    let t = xl; xl = xr; xr = t;
+    xr ^= st.p[1];
+    xl ^= st.p[0];
+    (xl, xr)
+}
+
+/// k-th big-endian 32-bit word of the cyclically repeated byte string
+pub fn cyc_word(buf: &[u8], k: usize) -> u32 {
+    let n = buf.len();
+    let mut v = 0u32;
+    let mut j = 0;
+    while j < 4 {
+        v = (v << 8) | buf[(4 * k + j) % n] as u32;
+        j += 1;
+    }
+    v
+}
+
+/// ExpandKey(state, salt, key) of eksblowfish; with `salt` = None it is Blowfish's own key schedule step
+/// (XOR P with the cycled key, then replace P and S by chained encryptions of the running block).
+pub fn expand_key(st: &mut State, salt: Option<&[u8]>, key: &[u8]) {
+    let mut i = 0;
+    while i < 18 {
+        st.p[i] ^= cyc_word(key, i);
+        i += 1;
+    }
+    let (mut l, mut r) = (0u32, 0u32);
+    let mut t = 0; // index of the encryption (0..521)
+    while t < 521 {
+        if let Some(s) = salt {
+            l ^= cyc_word(s, 2 * t);
+            r ^= cyc_word(s, 2 * t + 1);
+        }
+        let (nl, nr) = encrypt(st, l, r);
+        l = nl;
+        r = nr;
+        if t < 9 {
+            st.p[2 * t] = l;
+            st.p[2 * t + 1] = r;
+        } else {
+            let u = t - 9;
+            st.s[u / 128][2 * (u % 128)] = l;
+            st.s[u / 128][2 * (u % 128) + 1] = r;
+        }
+        t += 1;
+    }
+}
+
+pub fn new(key: &[u8]) -> State {
+    let mut st = init_state();
+    expand_key(&mut st, None, key);
+    st
+}
+
+#[cfg(test)]
+mod tests {
+    use super::*;
+    #[test]
+    fn schneier_vectors() {
+        let v: [(u64, u64, u64); 6] = [
+            (0x0000000000000000, 0x0000000000000000, 0x4EF997456198DD78),
+            (0xFFFFFFFFFFFFFFFF, 0xFFFFFFFFFFFFFFFF, 0x51866FD5B85ECB8A),
+            (0x3000000000000000, 0x1000000000000001, 0x7D856F9A613063F2),
+            (0x1111111111111111, 0x1111111111111111, 0x2466DD878B963C9D),
+            (0x0123456789ABCDEF, 0x1111111111111111, 0x61F9C3802281B096),
+            (0xFEDCBA9876543210, 0x0123456789ABCDEF, 0x0ACEAB0FC6A0A28D),
+        ];
+        for (k, p, c) in v {
+            let st = new(&k.to_be_bytes());
+            let (l, r) = encrypt(&st, (p >> 32) as u32, p as u32);
+            assert_eq!(((l as u64) << 32) | r as u64, c);
+            let (l, r) = decrypt(&st, (c >> 32) as u32, c as u32);
+            assert_eq!(((l as u64) << 32) | r as u64, p);
+        }
+    }
+    #[test]
+    fn zero_salt_is_plain() {
+        let mut a = init_state();
+        let mut b = init_state();
+        expand_key(&mut a, None, b"abc");
+        expand_key(&mut b, Some(&[0u8; 16]), b"abc");
+        assert!(a.p == b.p && a.s == b.s);
+    }
+    #[test]
+    fn pi_words() { assert_eq!(P[0], 0x243f6a88); assert_eq!(S[3][255], 0x3ac372e6); }
+}
